@@ -10,7 +10,7 @@ import NetaddrVerif.Model.AddrRaw
     transcriptions `validStr4Raw` / `validStr6Raw`; `ip_parse_raw be4 be6 S ver flags`
     (`ipAddressRaw`, the two back-end switches apart, exception class as raised);
     `s2i_raw F be S flags` (`strategy.ipv4/ipv6.str_to_int`); `raw_call fn be S` with fn in
-    aton | pton4 | pton6 | int (the platform calls themselves, value or the class they raise);
+    aton | pton4 | pton6 | int (the platform calls themselves: value, `!exception` or `!base`);
     `ip_format be6 F V D` (`IPAddress.format`, D = - | compact | full | verbose | nowf | wfonly). -/
 namespace NV.Driver.C01
 open NV NV.Proto NV.AddrParse NV.AddrRaw
@@ -90,16 +90,19 @@ def handle (op : String) (args : List String) : Option String :=
     | .error e => pure (showExn e)
   | "raw_call", [fn, be, s] => do
     let be ← parseBe be; let s ← parseStr s
+    -- which class the platform raises is not reported, only whether it is below `Exception`
+    -- (what `RawPlatform.Sane` asks)
+    let showK : Exn → String := fun e => if e.isException then "!exception" else "!base"
     let showX : X Nat → String := fun r => match r with
       | .ok v => toString v
-      | .error e => showExn e
+      | .error e => showK e
     match fn with
     | "aton" => pure (showX (std.aton s))
     | "pton4" => pure (showX (std.pton4 be s))
     | "pton6" => pure (showX (std.pton6 be s))
     | "int" => (match std.pyInt s with
       | .ok i => pure (toString i)
-      | .error e => pure (showExn e))
+      | .error e => pure (showK e))
     | _ => none
   | "ip_format", [be6, f, v, d] => do
     let be6 ← parseBe be6; let f ← f.toNat?; let v ← v.toNat?; let d ← parseFmtArg d
